@@ -168,6 +168,9 @@ func maxKeys(k *ref.Type, want int) int {
 // top level of a field.
 func containerSizes(t *ref.Type, tier Tier) []int {
 	s := []int{3, 8, 9}
+	if t.Kind != ref.KMap {
+		s = append(s, 1100) // wide: more elements than any per-call budget (depth bound, small scratch blocks)
+	}
 	if tier == Thorough {
 		if t.Kind == ref.KMap {
 			s = append(s, 27, 28, 53, 54, 55, 56, 105, 106, 107, 108, 109, 110, 111, 112)
